@@ -5,7 +5,8 @@ import gen as G
 from props.base import run_req, cmp_run
 
 RULE = ("random sequences of 3..12 file-system built-in calls over a tree of 7 paths (nested directories) in a fresh scratch "
-        "directory, with contents empty / multi-line / Bangla / 64 KB, pre-existing files, directories, a file with invalid "
+        "directory (30 % of the paths respelled with name/.. detours through directories, files and missing names, '.', '//' "
+        "and trailing slashes: the kernel's walk decides, not the text), with contents empty / multi-line / Bangla / 64 KB, pre-existing files, directories, a file with invalid "
         "UTF-8 content and a directory entry with an invalid UTF-8 name; every result is printed; failing calls (missing path, "
         "file where a directory is expected and vice versa, unreadable content) are generated on purpose. Oracle: a Python "
         "model of the abstract file tree predicts every printed line and the error; the final real directory listing "
@@ -14,7 +15,8 @@ RULE = ("random sequences of 3..12 file-system built-in calls over a tree of 7 p
         "Non-trivial: the sequence contains a failing call or a directory operation.")
 ASSUMPTIONS = ["the operating system's file system is modelled by an abstract tree (DESIGN §4 C20): agreement of that model "
                "with the real file system is established by this correspondence check, not by proof",
-               "paths are absolute clean paths below the scratch root; no symlinks, no permissions"]
+               "paths are absolute paths below the scratch root, written clean or with `name/..` detours, `.` components, "
+               "doubled and trailing slashes (30 % of the calls); no relative paths, no symlinks, no permissions"]
 def canon_listing(out):
     """directory entries come in unspecified order: sort the fields of the joined-names lines"""
     return "\n".join("|".join(sorted(l.split("|"))) if "|" in l else l for l in out.split("\n"))
@@ -40,12 +42,68 @@ class Fs:
     def children(self, p):
         return [q for q in self.nodes if q != p and self.parent(q) == p]
 
+    def resolve(self, text):
+        """the kernel's walk of a path text below the scratch root: every component walked through must be an existing
+        directory, `..` goes up, `.` and empty components stay, a trailing slash demands a directory; None = the walk fails"""
+        assert text.startswith(self.root)
+        raw = text[len(self.root):].split("/")
+        comps = [c for c in raw if c not in ("", ".")]
+        wants_dir = len(raw) > 1 and raw[-1] in ("", ".")
+        cur = []
+        for i, c in enumerate(comps):
+            if c == "..":
+                assert cur, "generator never climbs above the scratch root"
+                cur.pop()
+            elif i == len(comps) - 1:
+                cur.append(c)
+            elif self.is_dir(self.root + "".join("/" + x for x in cur + [c])):
+                cur.append(c)
+            else:
+                return None
+        q = self.root + "".join("/" + x for x in cur)
+        if wants_dir and not self.is_dir(q):
+            return None
+        return q
+
+    def norm_dots(self, text):
+        raw = text[len(self.root):].split("/")
+        return self.root + "".join("/" + c for c in raw if c not in ("", "."))
+
+
+def respell(r, k, p, root):
+    """another spelling of the clean path `p`: `name/..` detours (through an existing directory, a file, or nothing),
+    `.` components, doubled slashes, a trailing slash"""
+    comps = p[len(root) + 1:].split("/") if len(p) > len(root) else []
+    kinds = ["dot", "slash"] if k == "mkdir" else ["dotdot", "dotdot", "dot", "slash", "trail"]
+    if k == "rmdir":
+        kinds.remove("trail")
+    t = r.choice(kinds)
+    i = r.below(len(comps) + 1) if comps else 0
+    if t == "dotdot":
+        i = r.below(len(comps)) if comps else 0
+        # a sibling name at that level: directories, files and names that never exist
+        level = "/".join(comps[:i])
+        cands = {"": ["d1", "d3", "a.txt", "b.txt", "nope"], "d1": ["d2", "c.txt", "nope"], "d1/d2": ["e.txt", "nope"], "d3": ["d4", "nope"], "d3/d4": ["f.txt", "nope"]}.get(level, ["nope"])
+        comps = comps[:i] + [r.choice(cands), ".."] + comps[i:]
+    elif t == "dot":
+        comps = comps[:i] + ["."] + comps[i:] if i < len(comps) else comps   # never a final '.'
+        if "." not in comps:
+            comps = ["."] + comps
+    elif t == "slash":
+        comps = comps[:i] + [""] + comps[i:] if i < len(comps) else [""] + comps
+    else:
+        comps = comps + [""]
+    return root + "".join("/" + c for c in comps)
+
 
 def simulate(fs, ops):
     """expected output lines and whether (and where) the program stops"""
     out = []
     for k, op in enumerate(ops):
         name, p = op[0], op[1]
+        p = fs.norm_dots(p) if name == "mkdir" else fs.resolve(p)
+        if p is None:
+            return out, k
         if name == "write":
             if not fs.is_dir(fs.parent(p)) or fs.is_dir(p):
                 return out, k
@@ -200,14 +258,31 @@ def cases(rng, tier, stats):
                 fs.badname_dirs.add(d)
                 lines.append("DIR " + C.hx(d))
                 lines.append("BADNAME " + C.hx(d + "/x"))
+        import copy
         ops = []
+        cur = copy.deepcopy(fs)
         for _ in range(r.range(3, 12)):
-            k = r.choice(["write", "write", "read", "read", "delete", "mkdir", "readdir", "rmdir", "kind", "kind"])
-            p = root + "/" + r.choice(REL)
-            if k == "readdir" and r.chance(0.2):
-                p = root
-            ops.append((k, p, r.choice(CONTENTS)) if k == "write" else (k, p))
+            # mostly calls that succeed in the current tree (so that sequences get long), a failing one now and then
+            want_valid = r.chance(0.92)
+            for attempt in range(8):
+                k = r.choice(["write", "write", "read", "read", "delete", "mkdir", "readdir", "rmdir", "kind", "kind"])
+                p = root + "/" + r.choice(REL)
+                if k == "readdir" and r.chance(0.2):
+                    p = root
+                if r.chance(0.3):
+                    p = respell(r, k, p, root)
+                op = (k, p, r.choice(CONTENTS)) if k == "write" else (k, p)
+                trial = copy.deepcopy(cur)
+                _, st = simulate(trial, [op])
+                if (st is None) == want_valid:
+                    break
+            if p != cur.norm_dots(p) or ".." in p:
+                opsh["respelled"] = opsh.get("respelled", 0) + 1
+            ops.append(op)
             opsh[k] = opsh.get(k, 0) + 1
+            if st is not None:
+                break
+            cur = trial
         import copy
         fs2 = copy.deepcopy(fs)
         exp, stop = simulate(fs2, ops)
@@ -224,6 +299,22 @@ def cases(rng, tier, stats):
         nt = stop is not None or any(o[0] in ("mkdir", "rmdir", "readdir") for o in ops)
         out.append(C.Case("fs-ops", lines, default_compare, oracle, info={"ops": [(o[0], o[1][6:]) for o in ops], "expected": exp, "stops_at": stop, "stop_line": stop_line,
                                                                            "run_index": len(lines) - 1}, nontrivial=nt))
+    # wrong argument shapes, systematically: every argument tuple of length 0..3 over {path of a file, path of a directory,
+    # path below a missing directory, number, list} for the seven file-system built-ins, on a fixed small tree
+    import itertools
+    pool = [G.s("@ROOT@/a.txt"), G.s("@ROOT@/d1"), G.s("@ROOT@/নেই/লেখা"), G.num(3), G.lst(G.s("@ROOT@/a.txt"))]   # every string is a path below the scratch root: no call can touch anything else
+    nt = 0
+    for fn in FN.values():
+        for ln in range(0, 4):
+            for args in itertools.product(pool, repeat=ln):
+                if tier != "thorough" and ln == 3 and (nt % 4) != 0:
+                    nt += 1
+                    continue
+                src = G.source([("print", G.s("আগে")), ("print", G.call(fn, *args)), ("print", G.s("পরে"))], "lines")
+                lines = ["RESET", "FILE " + C.hx("@ROOT@/a.txt") + " " + C.hx("ক"), "DIR " + C.hx("@ROOT@/d1"), run_req(src, fs=1)]
+                out.append(C.Case("argument-tuples", lines, default_compare, lambda case, impl, model: [], info={"src": src, "run_index": 3, "expected": []}))
+                nt += 1
+    stats["argument_tuples"] = nt
     stats["sequences"] = n
     stats["operations"] = opsh
     stats["sequences_with_failing_call"] = fails
